@@ -364,21 +364,14 @@ func (m *Message) ReadFrom(r io.Reader) error {
 }
 
 func readSection(reader *bufio.Reader, readN int) ([]byte, error) {
-	buf := make([]byte, readN)
-
-	var err error
-	n := 0
-	for n < readN {
-		m, err := reader.Read(buf[n:])
-		if err != nil {
-			break
-		}
-		n += m
+	if readN < 0 {
+		return nil, errors.New("Negative section size")
 	}
 
-	if err != nil {
-		return buf, err
-	}
+	// Don't trust the declared size when allocating: grow as data is actually read.
+	var section bytes.Buffer
+	copied, _ := io.CopyN(&section, reader, int64(readN))
+	buf, n := section.Bytes(), int(copied)
 
 	end, err := reader.ReadString('\n')
 	switch {
